@@ -48,7 +48,7 @@ def rule_H4(ctx):
         f = m.funcs.get(key)
         if f is None:
             raise AnalysisError(f'anchor vanished: {key}')
-        if any(isinstance(x, ast.Call) and (getattr(x.func, 'attr', None) == callee or getattr(x.func, 'id', None) == callee) for x in own_walk(f.node)):
+        if any(isinstance(x, ast.Call) and (getattr(x.func, 'attr', None) == callee or getattr(x.func, 'id', None) == callee) for _g, x in G.route_walk(m, f)):
             r.ok(f'{key}->{callee}')
         else:
             r.fail(key, f'{what}: delegation to {callee}', f'the {what} route builds bits without {callee}()', loc=f.loc())
@@ -245,10 +245,56 @@ def _float_order_flags(m, f):
     return out or None
 
 
+def _esc_syntactic(m, r, cn):
+    """The shape-based form of the Colour check (used when the partial evaluator does not cover Colour.__new__)."""
+    top = [i for i in own_walk(cn.node) if isinstance(i, ast.If) and ast.unparse(G.pos_if(i)[0]) == 'use_colour']
+    on_body, off_body = (G.pos_if(top[0])[1], G.pos_if(top[0])[2]) if top else ([], [])
+    if not top or not off_body or not on_body:
+        r.fail(cn.key, 'else branch', 'Colour must define empty colour strings when colour is off', loc=cn.loc())
+    else:
+        vals = [y.value for s in off_body for y in ast.walk(s) if isinstance(y, ast.Constant) and isinstance(y.value, str)]
+        names_if = {ast.unparse(t) for s in on_body for y in ast.walk(s) if isinstance(y, ast.Assign) for t in y.targets}
+        names_else = {ast.unparse(t) for s in off_body for y in ast.walk(s) if isinstance(y, ast.Assign) for t in y.targets}
+        if any(vals) or names_if != names_else:
+            r.fail(cn.key, 'else branch values', 'with colour off every colour attribute must be the empty string', loc=cn.loc(top[0]))
+        else:
+            r.ok('Colour else branch', {'instance': 'Colour.__new__', 'attributes': sorted(names_else)})
+        if any(t.startswith('cls.') or t.startswith('Colour.') for t in names_if):
+            early = [x for x in own_walk(cn.node) if isinstance(x, ast.Return) and x.lineno < top[0].lineno]
+            nested = not any(top[0] is s for s in G.body_wo_doc(cn))
+            if early or nested:
+                r.fail(cn.key, early[0] if early else top[0], 'Colour keeps its strings in class attributes, which every construction must re-assign; this '
+                       'path returns without passing the `if use_colour` / else assignment, so the strings of an earlier construction (with colour on) '
+                       'stay in force after options.no_color is set', loc=cn.loc(early[0] if early else top[0]))
+            else:
+                r.ok('Colour assignment dominates every return')
+
+
 def rule_ESC(ctx):
     """Terminal escape sequences exist only in Colour.__new__ under `if use_colour`, and every Colour is built from no_color."""
     m = ctx.m
     r = RuleResult('ESC', 'escape-sequence confinement: no colour codes can be emitted when options.no_color is set')
+    cn = m.funcs.get('bitstring_options:Colour.__new__')
+    if cn is None:
+        raise AnalysisError('anchor vanished: Colour.__new__')
+    # what Colour.__new__ assigns with colour off and with colour on, by partial evaluation of its body for both flag values:
+    # {attribute: value} at every return
+    from .peval import PEval, Unsupported, is_const
+    import re as _re2
+    _re_attr = _re2.compile(r'\w+\.\w+')
+
+    def attrs_at_returns(flag):
+        pe = PEval(m, cn, {'use_colour': flag})
+        pe.run()
+        out = []
+        for env in pe.return_envs:
+            out.append({k: v for k, v in env.items() if _re_attr.fullmatch(k) and is_const(v) and isinstance(v, str)})
+        return out
+    try:
+        off_paths, on_paths = attrs_at_returns(False), attrs_at_returns(True)
+        evaluated = bool(off_paths) and bool(on_paths)
+    except (Unsupported, RecursionError):
+        evaluated = False
     n_lit = 0
     for mod, tree in m.mods.items():
         if mod == 'luts':
@@ -264,6 +310,8 @@ def rule_ESC(ctx):
                             owner = f
                 ok = False
                 if owner is not None and owner.key == 'bitstring_options:Colour.__new__':
+                    if evaluated:
+                        ok = True          # judged below by what the attributes hold with colour off
                     for i in own_walk(owner.node):
                         if isinstance(i, ast.If):
                             pt, pbody, _pelse = G.pos_if(i)
@@ -276,33 +324,28 @@ def rule_ESC(ctx):
                            '`if use_colour` branch can reach the output although options.no_color is set', loc=f'bitstring/{mod}.py:{x.lineno}')
     if n_lit == 0:
         raise AnalysisError('no escape literal found at all (Colour vanished?)')
-    # the else branch must set empty strings
-    cn = m.funcs.get('bitstring_options:Colour.__new__')
-    if cn is None:
-        raise AnalysisError('anchor vanished: Colour.__new__')
-    top = [i for i in own_walk(cn.node) if isinstance(i, ast.If) and ast.unparse(G.pos_if(i)[0]) == 'use_colour']
-    on_body, off_body = (G.pos_if(top[0])[1], G.pos_if(top[0])[2]) if top else ([], [])
-    if not top or not off_body or not on_body:
-        r.fail(cn.key, 'else branch', 'Colour must define empty colour strings when colour is off', loc=cn.loc())
-    else:
-        vals = [y.value for s in off_body for y in ast.walk(s) if isinstance(y, ast.Constant) and isinstance(y.value, str)]
-        names_if = {ast.unparse(t) for s in on_body for y in ast.walk(s) if isinstance(y, ast.Assign) for t in y.targets}
-        names_else = {ast.unparse(t) for s in off_body for y in ast.walk(s) if isinstance(y, ast.Assign) for t in y.targets}
-        if any(vals) or names_if != names_else:
-            r.fail(cn.key, 'else branch values', 'with colour off every colour attribute must be the empty string', loc=cn.loc(top[0]))
+    if evaluated:
+        names_on = set().union(*[set(p_) for p_ in on_paths])
+        bad_off = [(k, v) for p_ in off_paths for k, v in p_.items() if v != '']
+        if not names_on or any(not (is_const(v) and isinstance(v, str) and v) for p_ in on_paths for v in p_.values()):
+            raise AnalysisError('Colour.__new__: colour attributes not recognised (needs a human)')
+        if bad_off:
+            r.fail(cn.key, 'else branch values', f'with colour off every colour attribute must be the empty string ({bad_off[0][0]} is {bad_off[0][1]!r})', loc=cn.loc())
         else:
-            r.ok('Colour else branch', {'instance': 'Colour.__new__', 'attributes': sorted(names_else)})
-        # the colour strings are CLASS attributes (shared by every Colour object), so they are right only if every construction
-        # re-assigns them: the if/else must sit on every path to a return of __new__ (no cached-instance early return)
-        if any(t.startswith('cls.') or t.startswith('Colour.') for t in names_if):
-            early = [x for x in own_walk(cn.node) if isinstance(x, ast.Return) and x.lineno < top[0].lineno]
-            nested = not any(top[0] is s for s in G.body_wo_doc(cn))
-            if early or nested:
-                r.fail(cn.key, early[0] if early else top[0], 'Colour keeps its strings in class attributes, which every construction must re-assign; this '
-                       'path returns without passing the `if use_colour` / else assignment, so the strings of an earlier construction (with colour on) '
-                       'stay in force after options.no_color is set', loc=cn.loc(early[0] if early else top[0]))
-            else:
-                r.ok('Colour assignment dominates every return')
+            r.ok('Colour with colour off', {'instance': 'Colour.__new__', 'attributes': sorted(names_on), 'verdict': 'all empty with use_colour=False'})
+        # the strings live on the class (shared by every Colour object): every path to a return must assign all of them
+        shared = any(k.startswith(('cls.', 'Colour.')) for k in names_on)
+        incomplete = [p_ for p_ in off_paths + on_paths if set(p_) != names_on]
+        if incomplete and shared:
+            r.fail(cn.key, 'a return that skips the colour assignment', 'Colour keeps its strings in class attributes, which every construction must re-assign; '
+                   'one path returns without assigning ' + ', '.join(sorted(names_on - set(incomplete[0]))) + ', so the strings of an earlier construction '
+                   '(with colour on) stay in force after options.no_color is set', loc=cn.loc())
+        elif incomplete:
+            r.fail(cn.key, 'else branch', 'Colour must define empty colour strings when colour is off', loc=cn.loc())
+        else:
+            r.ok('Colour assignment dominates every return')
+    else:
+        _esc_syntactic(m, r, cn)
     # constructions
     n_c = 0
     for f in m.funcs.values():
@@ -449,7 +492,7 @@ def rule_PK(ctx):
         else:
             r.ok(f'{name}->preprocess_tokens')
     # too few values
-    nexts = [x for x in own_walk(pk.node) if isinstance(x, ast.Call) and isinstance(x.func, ast.Name) and x.func.id == 'next']
+    nexts = G.sites_via_helpers(m, pk, lambda x: isinstance(x, ast.Call) and isinstance(x.func, ast.Name) and x.func.id == 'next')
     tries = [x for x in own_walk(pk.node) if isinstance(x, ast.Try)]
 
     def handler_for(call, exc):
